@@ -107,8 +107,8 @@ def run(case):
             raise Violation('rebased-time-non-negative', f'part {k}: offset {off}')
         offsets.append(off)
     known = [o for o in offsets if o is not None]
-    if any(b < a for a, b in zip(known, known[1:])):
-        raise Violation('parts-chronological', f'offsets {offsets}')
+    if any(b <= a for a, b in zip(known, known[1:])):
+        raise Violation('rebased-to-offset-inside-part', f'time offsets of consecutive non-empty parts are not increasing: {offsets} (times must be re-based to the start of their own part)')
     # re-based times lie inside the part's own time bin: below the next part's offset
     for k, p in enumerate(parts):
         nxt = next((o for o in offsets[k + 1 :] if o is not None), None)
